@@ -75,6 +75,9 @@ def build_case(shard, vi, seed, ctor="Sigma", prep="fresh"):
         # a prior a million times tighter than the observation noise (every matrix keeps its condition number): gains of
         # size 1e-6 must come out with relative, not absolute, accuracy for the round trips to close
         Sx = Sx * 2.0 ** -20
+    if prep == "tiny_noise":
+        # observation noise ~1e-9 of M Sx M' (every INPUT matrix keeps its condition number)
+        Sy = Sy * 2.0 ** -30
     if prep == "vague_prior":
         # the mirror image: a precise observation of a vague prior (prior covariance a million times the noise)
         Sx = Sx * 2.0 ** 20
@@ -147,7 +150,7 @@ def run(shard, ctx, which):
           if kind == "nncontrol":
               preps = ("fresh", "updated", "replaced") if vi in (0, 100) else ("fresh",)
           elif ctor in ("Sigma", "b_none") and vi in (0, 100):
-              preps = ("fresh", "sliced", "updated") + (("replaced",) if (kind in ("full", "diag") and ctor == "Sigma") else ()) + (("units",) if ctor in ("Sigma", "Lambda") else ()) + (("tight_prior", "vague_prior") if ctor == "Sigma" else ())
+              preps = ("fresh", "sliced", "updated") + (("replaced",) if (kind in ("full", "diag") and ctor == "Sigma") else ()) + (("units",) if ctor in ("Sigma", "Lambda") else ()) + (("tight_prior", "vague_prior", "tiny_noise") if ctor == "Sigma" else ())
           elif vi == objs.HARD and ctor == "Sigma":
               preps = ("fresh", "tight_prior", "vague_prior")  # strongly correlated AND a million times tighter / wider than the noise
           else:
@@ -156,6 +159,10 @@ def run(shard, ctx, which):
             if prep == "vague_prior" and not (which == "C08" and kind.startswith("identity")):
                 # only where every matrix involved stays inside the stated domain: the identity-mean marginal N(mu, Sx + Sy);
                 # a joint / posterior of a 1e6-times wider prior has a condition number far above 1e4
+                continue
+            if prep == "tiny_noise" and not (which == "C08" and kind in ("full", "diag") and Dy <= Dx and vi == 100):
+                # only the marginal-versus-joint consistency of the general classes with a full-row-rank M (seed-generic values):
+                # there p(y) = N(M mu + b, Sy + M Sx M') is well conditioned although the joint is not
                 continue
             desc = dict(vi=vi, N=N, ctor=ctor, prep=prep)
             if not ctx.case(desc):
@@ -172,6 +179,8 @@ def run(shard, ctx, which):
                 ctx.sample(dict(shard=shard["id"], vi=vi, M=M, b=b, Sigma_y=Sy, mu_x=mx, Sigma_x=Sx, x=x, y=y))
             if which == "C07":
                 check_joint(ctx, cond, kw, p_x, M, b, Sy, mx, Sx, x, y, Rc, Rx)
+            elif which == "C08" and prep == "tiny_noise":
+                check_marginal_light(ctx, cond, kw, p_x, M, b, Sy, mx, Sx, Rc, Rx)
             elif which == "C08":
                 check_marginal(ctx, cond, kw, p_x, M, b, Sy, mx, Sx, x, y, Rc, Rx)
             elif which == "C09":
@@ -301,6 +310,31 @@ def check_marginal(ctx, cond, kw, p_x, M, b, Sy, mx, Sx, x, y, Rc, Rx):
         pm = joint.get_marginal(jnp.arange(Dx, Dx + Dy))
         ctx.close("marginal.vs_joint_marginal.mu", np.asarray(pm.mu), np.asarray(p_y.mu))
         ctx.close("marginal.vs_joint_marginal.Sigma", np.asarray(pm.Sigma), np.asarray(p_y.Sigma))
+
+
+def check_marginal_light(ctx, cond, kw, p_x, M, b, Sy, mx, Sx, Rc, Rx):
+    """Moments of p(y) against NumPy, and the y-marginal of the joint transformation against p(y) (tiny observation noise:
+    the joint itself is ill-conditioned, its y-block is not)."""
+    facts = dict(prep="tiny_noise")
+    with ctx.guard("marginal.call", facts) as g:
+        p_y = cond.affine_marginal_transformation(p_x, **kw)
+        joint = cond.affine_joint_transformation(p_x, **kw)
+        Dx, Dy = len(mx[0]), len(b[0])
+        pm = joint.get_marginal(jnp.arange(Dx, Dx + Dy))
+    if not g.ok:
+        return
+    R = Rc * Rx
+    mu_ref = np.zeros((R, Dy))
+    Sig_ref = np.zeros((R, Dy, Dy))
+    for rc in range(Rc):
+        for rx in range(Rx):
+            r = comp(rc, rx, Rx)
+            mu_ref[r], Sig_ref[r] = rm.pushforward(mx[rx], Sx[rx], M[rc], b[rc])
+            Sig_ref[r] = Sig_ref[r] + Sy[rc]
+    ctx.close("marginal.mu", np.asarray(p_y.mu), mu_ref, facts=facts)
+    ctx.close("marginal.Sigma", np.asarray(p_y.Sigma), Sig_ref, facts=facts)
+    ctx.close("marginal.vs_joint_marginal.mu", np.asarray(pm.mu), mu_ref, facts=facts)
+    ctx.close("marginal.vs_joint_marginal.Sigma", np.asarray(pm.Sigma), Sig_ref, facts=facts)
 
 
 def check_conditional(ctx, cond, kw, p_x, M, b, Sy, mx, Sx, x, y, Rc, Rx):
